@@ -14,6 +14,11 @@ EXTENDS Prune, Json, IOUtils
 Cases == ndJsonDeserialize(IOEnv.CASES)
 
 Set(s) == {s[k] : k \in DOMAIN s}
+(* two result sets agree / are nested when they do so as written, or when they do so after every bond is written as a
+   single bond (field <f>_sk): RDKit writes a product whose formerly aromatic ring is no longer aromatic with one of
+   several equivalent double-bond placements, depending on the atom order - that is not a different reaction *)
+Eq(x, y, f) == Set(x[f]) = Set(y[f]) \/ Set(x[f \o "_sk"]) = Set(y[f \o "_sk"])
+Sub(x, f, y, g) == Set(x[f]) \subseteq Set(y[g]) \/ Set(x[f \o "_sk"]) \subseteq Set(y[g \o "_sk"])
 
 (* model_<strategy> = [pat, raw, keys] (see Prune.tla) is recorded whenever the pruned and the raw set differ;
    Explained: the pruned set is exactly what the pruning algorithm as implemented returns *)
@@ -25,23 +30,23 @@ AllExplained(c) == \A a \in DOMAIN c.v : /\ Explained(c.v[a].all, c.v[a].raw_all
 
 (* the raw (unpruned) result sets do not depend on the writing and contain the pruned ones, and every pruned set is
    what Prune.tla computes from the raw matches: then a difference between pruned sets is the known symmetry-pruning finding *)
-RawAgree(c) == /\ \A a, b \in DOMAIN c.v : Set(c.v[a].raw_all) = Set(c.v[b].raw_all) /\ Set(c.v[a].raw_comp) = Set(c.v[b].raw_comp)
-               /\ \A a \in DOMAIN c.v : Set(c.v[a].all) \subseteq Set(c.v[a].raw_all) /\ Set(c.v[a].comp) \subseteq Set(c.v[a].raw_comp)
-                                       /\ Set(c.v[a].bt) \subseteq Set(c.v[a].raw_bt)
+RawAgree(c) == /\ \A a, b \in DOMAIN c.v : Eq(c.v[a], c.v[b], "raw_all") /\ Eq(c.v[a], c.v[b], "raw_comp")
+               /\ \A a \in DOMAIN c.v : Sub(c.v[a], "all", c.v[a], "raw_all") /\ Sub(c.v[a], "comp", c.v[a], "raw_comp")
+                                       /\ Sub(c.v[a], "bt", c.v[a], "raw_bt")
 Tag(c, base) == IF RawAgree(c) /\ AllExplained(c) THEN base \o "[only-symmetry-pruning-differs]" ELSE base
 
 Verdict(c) ==
    IF c.claim = "C05" THEN
       AllFails(<<
-         <<Tag(c, "result-set-depends-on-how-the-inputs-are-written(all)"), \A a, b \in DOMAIN c.v : Set(c.v[a].all) = Set(c.v[b].all)>>,
-         <<Tag(c, "result-set-depends-on-how-the-inputs-are-written(comp)"), \A a, b \in DOMAIN c.v : Set(c.v[a].comp) = Set(c.v[b].comp)>>,
-         <<Tag(c, "result-set-depends-on-how-the-inputs-are-written(bt)"), \A a, b \in DOMAIN c.v : Set(c.v[a].bt) = Set(c.v[b].bt)>>,
-         <<Tag(c, "component-aware-result-not-a-subset-of-exhaustive"), \A a \in DOMAIN c.v : Set(c.v[a].comp) \subseteq Set(c.v[a].all)>>,
+         <<Tag(c, "result-set-depends-on-how-the-inputs-are-written(all)"), \A a, b \in DOMAIN c.v : Eq(c.v[a], c.v[b], "all")>>,
+         <<Tag(c, "result-set-depends-on-how-the-inputs-are-written(comp)"), \A a, b \in DOMAIN c.v : Eq(c.v[a], c.v[b], "comp")>>,
+         <<Tag(c, "result-set-depends-on-how-the-inputs-are-written(bt)"), \A a, b \in DOMAIN c.v : Eq(c.v[a], c.v[b], "bt")>>,
+         <<Tag(c, "component-aware-result-not-a-subset-of-exhaustive"), \A a \in DOMAIN c.v : Sub(c.v[a], "comp", c.v[a], "all")>>,
          <<Tag(c, "fallback-differs-from-non-empty-component-aware-result"),
-              \A a \in DOMAIN c.v : Set(c.v[a].comp) # {} => Set(c.v[a].bt) = Set(c.v[a].comp)>>,
+              \A a \in DOMAIN c.v : Set(c.v[a].comp) # {} => (Set(c.v[a].bt) = Set(c.v[a].comp) \/ Set(c.v[a].bt_sk) = Set(c.v[a].comp_sk))>>,
          <<"raw-application-depends-on-how-the-inputs-are-written",
-              \A a, b \in DOMAIN c.v : Set(c.v[a].raw_all) = Set(c.v[b].raw_all) /\ Set(c.v[a].raw_comp) = Set(c.v[b].raw_comp)>>,
-         <<"raw-component-aware-not-a-subset-of-raw-exhaustive", \A a \in DOMAIN c.v : Set(c.v[a].raw_comp) \subseteq Set(c.v[a].raw_all)>>
+              \A a, b \in DOMAIN c.v : Eq(c.v[a], c.v[b], "raw_all") /\ Eq(c.v[a], c.v[b], "raw_comp")>>,
+         <<"raw-component-aware-not-a-subset-of-raw-exhaustive", \A a \in DOMAIN c.v : Sub(c.v[a], "raw_comp", c.v[a], "raw_all")>>
       >>)
    ELSE
       AllFails(<<
